@@ -16,7 +16,7 @@ mutual
     | k :: ks => hv k ++ hvList ks
 end
 
-def pathHV : List Frame → List (Nat × Value)
+def pathHV : List ZipFrame → List (Nat × Value)
   | [] => []
   | fr :: rest => hvList fr.l ++ (fr.h, fr.v) :: (pathHV rest ++ hvList fr.r)
 
@@ -47,7 +47,7 @@ theorem mem_handlesList_of_mem_hvList {x : Nat} {v : Value} {ks : List HTree}
 theorem mem_handles_of_mem_hv {x : Nat} {v : Value} {t : HTree} (h : (x, v) ∈ hv t) : x ∈ handles t := by
   rw [← map_fst_hv]; exact List.mem_map.mpr ⟨(x, v), h, rfl⟩
 
-theorem hvList_plug_perm (path : List Frame) (ks : List HTree) :
+theorem hvList_plug_perm (path : List ZipFrame) (ks : List HTree) :
     (hvList (plug path ks)).Perm (pathHV path ++ hvList ks) := by
   induction path with
   | nil => simp [pathHV]
@@ -59,11 +59,11 @@ theorem hvList_plug_perm (path : List Frame) (ks : List HTree) :
     simp only [List.append_assoc]
     exact List.Perm.append_left _ List.perm_append_comm
 
-theorem mem_hvList_plug {path : List Frame} {ks : List HTree} {p : Nat × Value} :
+theorem mem_hvList_plug {path : List ZipFrame} {ks : List HTree} {p : Nat × Value} :
     p ∈ hvList (plug path ks) ↔ p ∈ pathHV path ∨ p ∈ hvList ks := by
   rw [(hvList_plug_perm path ks).mem_iff]; simp
 
-theorem mem_pathHandles_of_mem_pathHV {x : Nat} {v : Value} {path : List Frame}
+theorem mem_pathHandles_of_mem_pathHV {x : Nat} {v : Value} {path : List ZipFrame}
     (h : (x, v) ∈ pathHV path) : x ∈ pathHandles path := by
   induction path with
   | nil => simp [pathHV] at h
